@@ -1186,8 +1186,7 @@ def run_phase_entry(vsp):
                 objs.append(Phase(space_group=p["sg"], point_group=pg if p["sg"] is None else None, structure=s))
             else:
                 objs.append(Phase(name=p["name"], space_group=p["sg"],
-                                  point_group=p["pg"] if p["sg"] is None else None, structure=s,
-                                  color=R.choice(["r", "g", "b"]) if False else None))
+                                  point_group=p["pg"] if p["sg"] is None else None, structure=s))
         if how == "dict of Phase":
             pl = PhaseList({p["id"]: o for p, o in zip(ph, objs)})
         else:
